@@ -322,11 +322,12 @@ struct Gen {
       std::vector<DV> e;
       for (int k : keysOf(p[1])) if (c.coin()) e.push_back(dvVal(k));
       if (flaw == 1) e.push_back(dvVal(key(p[1], true)));
+      if (e.empty() && !keysOf(p[1]).empty() && !c.chance(1, 5)) e.push_back(dvVal(key(p[1], false)));  // {} is the default: mostly refused as "no change"
       return dvSet(e);
     }
     if (p[0] == "R") {
       std::vector<DV> e;
-      const int n = keysOf(p[1]).empty() || keysOf(p[2]).empty() ? 0 : c.ipick(0, 4);
+      const int n = keysOf(p[1]).empty() || keysOf(p[2]).empty() ? 0 : c.ipick(c.chance(1, 5) ? 0 : 1, 4);
       for (int i = 0; i < n; ++i) e.push_back(dvTuple({dvVal(key(p[1], false)), dvVal(key(p[2], false))}));
       if (flaw == 1) e.push_back(dvTuple({dvVal(key(p[1], c.coin())), dvVal(key(p[2], true))}));
       return dvSet(e);
@@ -334,7 +335,7 @@ struct Gen {
     if (p[0] == "P") return dvTuple({dvVal(key(p[1], false)), dvVal(key(p[2], true))});
     if (p[0] == "SS") {
       std::vector<DV> e;
-      const int n = c.ipick(0, 3);
+      const int n = c.ipick(c.chance(1, 5) ? 0 : 1, 3);
       for (int i = 0; i < n; ++i) { std::vector<DV> in; for (int k : keysOf(p[1])) if (c.coin()) in.push_back(dvVal(k)); e.push_back(dvSet(in)); }
       if (flaw == 1) e.push_back(dvSet({dvVal(key(p[1], true))}));
       return dvSet(e);
@@ -450,7 +451,7 @@ struct Gen {
       setText(s, false);
       return true;
     } else if (k < 60) {
-      const int s = pickTarget([](const Item& it) { return it.kind == STRUCT; });
+      const int s = pickTarget([&](const Item& it) { return it.kind == STRUCT && (!it.sort.empty() || c.chance(1, 4)); });
       if (s < 0) return false;
       setStruct(s, false);
       return true;
@@ -814,15 +815,7 @@ Verdict propHistory(Ctx& c) {
         accepted = m.Values().SetBasicText(*target, t);
         break;
       }
-      case SET_STRUCT:
-        accepted = m.Values().SetStructureData(*target, dvData(op.data));
-        if (!accepted && !op.bogus && std::getenv("C11_DEBUG") != nullptr) {
-          std::cerr << "REFUSED " << g.showOp(op) << " on " << r.nameOf(*target) << " parse=" << static_cast<int>(m.GetParse(*target).status) << " bases:";
-          for (const auto u : m.List()) if (ccl::semantic::IsBaseSet(m.GetRS(u).type)) { std::cerr << " " << m.GetRS(u).alias << "="; if (const auto d = m.Values().SDataFor(u)) std::cerr << canon(*d); }
-          if (const auto d = m.Values().SDataFor(*target)) std::cerr << " current=" << canon(*d);
-          std::cerr << std::endl;
-        }
-        break;
+      case SET_STRUCT: accepted = m.Values().SetStructureData(*target, dvData(op.data)); break;
       case RESET_DATA: m.Values().ResetDataFor(*target); accepted = present && ccl::semantic::IsBaseNotion(m.GetRS(*target).type); break;
       case SET_EXPR: accepted = m.SetExpressionFor(*target, op.def); break;
       case ERASE: accepted = m.Erase(*target); break;
@@ -892,7 +885,7 @@ Verdict propHistory(Ctx& c) {
 
 int main(int argc, char** argv) {
   std::vector<pbt::Prop> props;
-  props.push_back({"history", propHistory, 1500, 6000, false, false,
+  props.push_back({"history", propHistory, 1300, 6000, false, false,
                    "histories of 4-30 operations on one RSModel, fresh-model recalculation after every operation; non-trivial = an accepted data/definition edit or erase while a transitive dependant holds a calculated value"});
   return pbt::main(argc, argv, "C11", props);
 }
